@@ -70,7 +70,7 @@ def judge_common(rec_base, log, ids, expect_fail_first, later, dq, retry, attemp
     return recs
 
 
-def run_harness(ctx, binary, test, cases, tag, timeout=900):
+def run_harness(ctx, binary, test, cases, tag, timeout=2700):
     path = os.path.join(ctx.scratch, "c09o_%s_cases.ndjson" % tag)
     outp = os.path.join(ctx.scratch, "c09o_%s_out.ndjson" % tag)
     with open(path, "w") as f:
@@ -93,12 +93,12 @@ def run_harness(ctx, binary, test, cases, tag, timeout=900):
 
 def es_stage(ctx, recs):
     quick = ctx.tier == "quick"
-    res = ctx.tlc_expect_ok("EsSplit", "EsSplit_quick.cfg" if quick else "EsSplit_thorough.cfg", deadlock=False, timeout=600,
+    res = ctx.tlc_expect_ok("EsSplit", "EsSplit_quick.cfg" if quick else "EsSplit_thorough.cfg", deadlock=False, timeout=1800,
                             workers=4, name="EsSplit: out/send/sendSplit vs every backend script")
     scripts = res.printed
     if len(scripts) < 50:
         raise vlib.Infra("EsSplit exported only %d scripts" % len(scripts))
-    m = ctx.tlc("EsSplit", "EsSplit_mut.cfg", deadlock=False, timeout=600, workers=4,
+    m = ctx.tlc("EsSplit", "EsSplit_mut.cfg", deadlock=False, timeout=1800, workers=4,
                 overrides={"M_StatusOfFailingRequest": "FALSE"}, name="EsSplit mutant M_StatusOfFailingRequest off")
     if m.ok or m.kind != "invariant":
         raise vlib.Infra("spec mutant M_StatusOfFailingRequest=FALSE is not rejected (ok=%s %s)" % (m.ok, m.violated))
@@ -197,20 +197,20 @@ def fd_stage(ctx, recs):
     """scope of a dead queue: specs/DeadQueueScope.tla + pipelines built through fd.addPipeline in every order"""
     quick = ctx.tier == "quick"
     res = ctx.tlc_expect_ok("DeadQueueScope", "DeadQueueScope_quick.cfg" if quick else "DeadQueueScope_thorough.cfg", deadlock=False,
-                            timeout=600, workers=2, name="DeadQueueScope: routing is a function of the pipeline's own config (modulo D)")
+                            timeout=1800, workers=2, name="DeadQueueScope: routing is a function of the pipeline's own config (modulo D)")
     cases = res.printed
     if len(cases) < 100:
         raise vlib.Infra("DeadQueueScope exported only %d cases" % len(cases))
     for sw in ("M_DeadQueueOnCopy", "M_LenCheckedBeforeTypeRemoved"):
-        m = ctx.tlc("DeadQueueScope", "DeadQueueScope_mut.cfg", deadlock=False, timeout=600, workers=2,
+        m = ctx.tlc("DeadQueueScope", "DeadQueueScope_mut.cfg", deadlock=False, timeout=1800, workers=2,
                     overrides={sw: "FALSE"}, name="DeadQueueScope mutant %s off" % sw)
         if m.ok or m.violated != "DeadQueueIffDeclared":
             raise vlib.Infra("spec mutant %s=FALSE is not rejected (ok=%s %s)" % (sw, m.ok, m.violated))
-    st = ctx.tlc("DeadQueueScope", "DeadQueueScope_strict.cfg", deadlock=False, timeout=600, workers=2,
+    st = ctx.tlc("DeadQueueScope", "DeadQueueScope_strict.cfg", deadlock=False, timeout=1800, workers=2,
                  name="DeadQueueScope strict DeadQueueIsOwn, deviation on")
     if st.ok or st.violated != "DeadQueueIsOwn":
         raise vlib.Infra("strict DeadQueueIsOwn with the deviation on: expected a counterexample, got ok=%s %s" % (st.ok, st.violated))
-    ideal = ctx.tlc("DeadQueueScope", "DeadQueueScope_strict.cfg", deadlock=False, timeout=600, workers=2,
+    ideal = ctx.tlc("DeadQueueScope", "DeadQueueScope_strict.cfg", deadlock=False, timeout=1800, workers=2,
                     overrides={"D_DqConfigOnRegistryEntry": "FALSE"}, name="DeadQueueScope strict, deviation off (ideal)")
     if not ideal.ok:
         raise vlib.Infra("strict DeadQueueIsOwn without the deviation should hold: %s" % ideal.violated)
@@ -227,7 +227,7 @@ def fd_stage(ctx, recs):
     with open(path, "w") as f:
         for c in cases:
             f.write(json.dumps({"idx": c["idx"], "cfgs": c["cfgs"], "order": c["order"]}) + "\n")
-    rc, txt = ctx.run_bin(binary, "^TestVerifC09Fd$", env={"VERIF_CASES": path, "VERIF_OUT": outp, "LOG_LEVEL": "error"}, timeout=900)
+    rc, txt = ctx.run_bin(binary, "^TestVerifC09Fd$", env={"VERIF_CASES": path, "VERIF_OUT": outp, "LOG_LEVEL": "error"}, timeout=2700)
     if rc != 0:
         raise vlib.Infra("C09 outputs stage: fd harness failed rc=%s:\n%s" % (rc, txt[-3000:]))
     out = {}
